@@ -32,6 +32,7 @@ def run(tier, seed):
     for i, sc in enumerate(scs):
         if i % 4 == 0 and sc.d >= 2:
             sc.ignore_feature = 2
+            sc.positional = False
         if i % 10 == 5:
             sc.names = "mixed"
     traces, kept, fails = E.validate(ctx, scs, wanted_trace, "fault-free PFI scenarios (incl. models ignoring feature 2)")
